@@ -74,7 +74,7 @@ static std::string constOf(exprNode *e) {
 
 // header classification of an @outer/@inner for statement, read off the statement tree
 static std::string hdrOf(forStatement &f) {
-  std::string init = "k", initv = "-", check = "k", op = "-", checkv = "-", upd = "k", uk = "-", updv = "-";
+  std::string init = "k", initv = "-", check = "k", op = "-", checkv = "-", upd = "k", uk = "-", updv = "-", side = "-";
   variable_t *it = NULL;
   statement_t &is = *f.init;
   if (is.type() == statementType::empty) init = "e";
@@ -108,9 +108,9 @@ static std::string hdrOf(forStatement &f) {
       else check = "o";
       if (check == "k") {
         exprNode *val = NULL;
-        if (b.leftValue->type() == exprNodeType::variable && &((variableNode*) b.leftValue)->value == it) val = b.rightValue;
-        else if (b.rightValue->type() == exprNodeType::variable && &((variableNode*) b.rightValue)->value == it) val = b.leftValue;
-        if (!val || !it) check = "i"; else checkv = constOf(val);
+        if (b.leftValue->type() == exprNodeType::variable && &((variableNode*) b.leftValue)->value == it) { val = b.rightValue; side = "l"; }
+        else if (b.rightValue->type() == exprNodeType::variable && &((variableNode*) b.rightValue)->value == it) { val = b.leftValue; side = "r"; }
+        if (!val || !it) { check = "i"; side = "-"; } else checkv = constOf(val);
       }
     }
   }
@@ -142,7 +142,7 @@ static std::string hdrOf(forStatement &f) {
       else if (!okVar) { upd = "w"; updv = "-"; }
     }
   }
-  return init + "," + initv + "," + check + "," + op + "," + checkv + "," + upd + "," + uk + "," + updv;
+  return init + "," + initv + "," + check + "," + op + "," + checkv + "," + upd + "," + uk + "," + updv + "," + side;
 }
 
 static void irChildren(blockStatement &b, std::ostringstream &o);
